@@ -163,6 +163,36 @@ func c19Case(seed int64, prop string, i int) (script string, obj map[string]inte
 		o, _ := eng.FieldsToMap(condObject(env.Fields, 2, r.Intn(4), r))
 		return gast.Text(p), o, env.Vars, r.Intn(2) == 0
 	}
+	if i%7 == 5 {
+		// a handful of patterns shared by many scripts, each using them through one or two of
+		// the operations that take a pattern, on subjects of several lines: whatever the
+		// process keeps per pattern, the script that came first must not decide for the others
+		pats := []string{"^beta$", "^l2", "a$", "^B", "^$", "b.t", "^alpha.beta$", "\\d+$"}
+		subjects := []string{"alpha\nbeta", "l1\nl2\nl3", "beta", "alpha\nbeta\n", "\n", "BETA\nbeta\ngamma 7\n8", "alpha beta"}
+		var b strings.Builder
+		b.WriteString("out = [];")
+		for k := 1 + r.Intn(2); k > 0; k-- {
+			p, sj := pats[r.Intn(len(pats))], subjects[r.Intn(len(subjects))]
+			lit := gast.ExprText(gast.StrLit{V: sj})
+			flags := []string{"", "", "i"}[r.Intn(3)]
+			switch r.Intn(6) {
+			case 0:
+				fmt.Fprintf(&b, " t(replace(%s, /%s/%s, \"X\"));", lit, p, flags)
+			case 1:
+				fmt.Fprintf(&b, " t(%s ~= /%s/%s);", lit, p, flags)
+			case 2:
+				fmt.Fprintf(&b, " t(match(%s, %s));", lit, gast.ExprText(gast.StrLit{V: p}))
+			case 3:
+				fmt.Fprintf(&b, " switch (%s) { case /%s/%s { t(1); } default { t(0); } }", lit, p, flags)
+			case 4:
+				fmt.Fprintf(&b, " t(replace(%s, %s, \"<$0>\"));", lit, gast.ExprText(gast.StrLit{V: p}))
+			default:
+				fmt.Fprintf(&b, " t(%s !~ /%s/%s, len(split(%s, %s)));", lit, p, flags, lit, gast.ExprText(gast.StrLit{V: p}))
+			}
+		}
+		b.WriteString(" return {\"a\": 1, \"b\": 2};")
+		return b.String(), map[string]interface{}{}, nil, r.Intn(2) == 0
+	}
 	s, o := c19Script(r)
 	return s, o, nil, r.Intn(2) == 0
 }
@@ -176,13 +206,35 @@ func c19Worker(args []string) {
 	real := os.Stdout
 	dn, _ := os.OpenFile(os.DevNull, os.O_WRONLY, 0)
 	os.Stdout = dn
-	var sb strings.Builder
-	for i := 0; i < n; i++ {
+	// every process takes the cases in an order of its own (and some leave half of them
+	// out): what one script leaves behind in the process must not show in another
+	order := 0
+	if len(args) > 2 {
+		fmt.Sscan(args[2], &order)
+	}
+	idx := make([]int, n)
+	for i := range idx {
+		idx[i] = i
+	}
+	switch {
+	case order == 1:
+		for i := range idx {
+			idx[i] = n - 1 - i
+		}
+	case order >= 2:
+		rand.New(rand.NewSource(seed*7919+int64(order))).Shuffle(n, func(a, b int) { idx[a], idx[b] = idx[b], idx[a] })
+	}
+	digests := make([]string, n)
+	for k, i := range idx {
+		if order >= 3 && order%2 == 1 && k%2 == 1 {
+			digests[i] = "-"
+			continue
+		}
 		s, o, v, no := c19Case(seed, "C19", i)
 		sum := sha256.Sum256([]byte(c19Transcript(s, o, v, no)))
-		fmt.Fprintf(&sb, "%x\n", sum[:8])
+		digests[i] = fmt.Sprintf("%x", sum[:8])
 	}
-	real.WriteString(sb.String())
+	real.WriteString(strings.Join(digests, "\n") + "\n")
 }
 
 func c19(c *ev.Ctx) {
@@ -255,7 +307,7 @@ func c19(c *ev.Ctx) {
 		wg.Add(1)
 		go func(p int) {
 			defer wg.Done()
-			cmd := exec.Command("timeout", "-s", "KILL", "3000", self, "worker", "c19", fmt.Sprint(c.Seed), fmt.Sprint(n))
+			cmd := exec.Command("timeout", "-s", "KILL", "3000", self, "worker", "c19", fmt.Sprint(c.Seed), fmt.Sprint(n), fmt.Sprint(p))
 			out, err := cmd.Output()
 			if err != nil {
 				c.Inconclusive(fmt.Sprintf("digest process %d failed: %v", p, err))
@@ -273,7 +325,7 @@ func c19(c *ev.Ctx) {
 		}
 		for i := 0; i < n; i++ {
 			cross++
-			if digests[i] != "" && outs[p][i] != digests[i] {
+			if digests[i] != "" && outs[p][i] != "-" && outs[p][i] != digests[i] {
 				s, _, _, _ := c19Case(c.Seed, c.Prop, i)
 				c.Violation(fmt.Sprintf("det/%d", i), "differs across processes", map[string]interface{}{
 					"summary": fmt.Sprintf("process %d computed digest %s, this process %s for the same script\n  script: %s", p, outs[p][i], digests[i], s), "script": s})
